@@ -803,8 +803,12 @@ const GOOD: [&str; 13] = [
 const GOOD_GENERICHIDE: usize = 7;
 
 /// 12 junk lines; several look like the beginning of another construct.
-const JUNK: [&str; 13] = [
+const JUNK: [&str; 16] = [
     "",
+    // blank but not empty (spaces, a tab, an ideographic space; with CRLF joins also a lone `\r`)
+    "  ",
+    "\t",
+    "\u{3000} ",
     "##",
     "$",
     "@@",
@@ -827,8 +831,9 @@ const GOOD_HOSTS: [&str; 6] = [
     "0.0.0.0 a.a#c",
     "SUB.Example.COM",
 ];
-const JUNK_HOSTS: [&str; 9] = [
+const JUNK_HOSTS: [&str; 10] = [
     "",
+    " \t",
     "# comment",
     "! Title: x",
     "127.0.0.1 localhost",
